@@ -233,7 +233,12 @@ var (
 )
 
 // BuiltinSource is where builtin.jq is read from.
-var BuiltinSource = "/repo/builtin.jq"
+var BuiltinSource = func() string {
+	if r := os.Getenv("VERIF_REPO"); r != "" {
+		return r + "/builtin.jq"
+	}
+	return "/repo/builtin.jq"
+}()
 
 func loadBuiltins() (map[string][]*gojq.FuncDef, error) {
 	builtinOnce.Do(func() {
